@@ -101,3 +101,16 @@ PROPS["C08"] = {
         "percentile 0 and NaN bucket items are outside the domain",
     ],
 }
+
+PROPS["C09"] = {
+    "pkg": "c09", "level": "exploration",
+    "jobs": {
+        "quick": [{"name": "expiry", "run": "^TestExpiryHistories$", "checks": 8000, "shards": 8, "steps": 40}],
+        "thorough": [{"name": "expiry", "run": "^TestExpiryHistories$", "checks": 1200000, "shards": 16, "steps": 60, "timeout": 1700}],
+    },
+    "assumptions": [
+        "a datapoint's timestamp is the (injected) clock reading when it is received, as in production where both come from the wall clock",
+        "Flush, Process and Reset of one flush happen at one clock reading",
+        "equal-timestamp gauge datapoints: any of the tied values is accepted",
+    ],
+}
